@@ -9,6 +9,7 @@ import (
 	"go/constant"
 	"go/token"
 	"go/types"
+	"golang.org/x/tools/go/packages"
 	"sort"
 	"strings"
 
@@ -1013,8 +1014,8 @@ func (p *Prog) regexSameInputs(out *RuleOut, flagsT *types.Named) {
 // --- numeric tower ---------------------------------------------------------------------------
 
 var ruleTower = &Rule{
-	Name: "R-TOWER", NeedSSA: false,
-	Doc: "the three numeric representations are siblings: every type switch over an item value in packages exec and types that has a case for one of int64, float64, json.Number has cases for all three",
+	Name: "R-TOWER", NeedSSA: true,
+	Doc: "the three numeric representations are siblings: every type switch over an item value in packages exec and types that has a case for one of int64, float64, json.Number has cases for all three — unless the operand was assigned once, before the switch, from a helper of the module that cannot answer the missing representation (it has been normalised)",
 	Run: func(p *Prog) *RuleOut {
 		out := newOut("R-TOWER")
 		n := 0
@@ -1067,6 +1068,23 @@ var ruleTower = &Rule{
 							name = fnName(sf)
 						}
 						key := fmt.Sprintf("%s: numeric type switch #%d", name, ord)
+						// the operand was normalised first: assigned once, before
+						// the switch, from a helper of the module none of whose
+						// returns can hold the missing representation
+						// (`left, ok := mathOperand(left)` answers int64 or float64)
+						if len(seen) < 3 {
+							if why := p.normalisedOperand(pk, fd, ts, x, seen); why != "" {
+								out.ok(key, p.pos(ts.Pos()), name, why)
+								return true
+							}
+							// … or the missing representation was dealt with before
+							// the switch (`if num, ok := val.(json.Number); ok {
+							// … return … }`) and cannot reach it
+							if why := p.excludedBeforeSwitch(p.ssaOf(fo), ts, seen); why != "" {
+								out.ok(key, p.pos(ts.Pos()), name, why)
+								return true
+							}
+						}
 						if len(seen) == 3 {
 							out.ok(key, p.pos(ts.Pos()), name, "int64, float64 and json.Number are all handled")
 						} else {
@@ -1426,3 +1444,141 @@ var ruleExactCmp = &Rule{
 }
 
 func init() { register(ruleExactCmp) }
+
+// normalisedOperand: the type-switch operand x (an identifier) is assigned
+// exactly once in fd, before the switch, from result #i of a call of a module
+// function h, and the dynamic types h can answer there (E2, each return
+// refined by its branch facts) do not include a numeric representation the
+// switch lacks. Returns the reason, or "".
+func (p *Prog) normalisedOperand(pk *packages.Package, fd *ast.FuncDecl, ts *ast.TypeSwitchStmt, x ast.Expr, seen map[string]bool) string {
+	id, ok := x.(*ast.Ident)
+	if !ok {
+		return ""
+	}
+	obj := pk.TypesInfo.Uses[id]
+	if obj == nil {
+		return ""
+	}
+	var asg *ast.AssignStmt
+	idx, nasg := -1, 0
+	ast.Inspect(fd.Body, func(nd ast.Node) bool {
+		a, ok := nd.(*ast.AssignStmt)
+		if !ok {
+			return true
+		}
+		for i, l := range a.Lhs {
+			li, ok := l.(*ast.Ident)
+			if !ok {
+				continue
+			}
+			if pk.TypesInfo.Uses[li] == obj || pk.TypesInfo.Defs[li] == obj {
+				nasg++
+				asg, idx = a, i
+			}
+		}
+		return true
+	})
+	if nasg != 1 || asg == nil || asg.Pos() >= ts.Pos() || len(asg.Rhs) != 1 {
+		return ""
+	}
+	call, ok := asg.Rhs[0].(*ast.CallExpr)
+	if !ok {
+		return ""
+	}
+	var fo *types.Func
+	switch fx := call.Fun.(type) {
+	case *ast.Ident:
+		fo, _ = pk.TypesInfo.Uses[fx].(*types.Func)
+	case *ast.SelectorExpr:
+		fo, _ = pk.TypesInfo.Uses[fx.Sel].(*types.Func)
+	}
+	h := p.ssaOf(fo)
+	if h == nil || h.Blocks == nil || !inModule(h) || idx >= h.Signature.Results().Len() {
+		return ""
+	}
+	e, err := p.exhEngine()
+	if err != nil {
+		return ""
+	}
+	got := map[string]bool{}
+	for _, r := range returnsOf(h) {
+		if idx >= len(r.Results) {
+			return ""
+		}
+		ctx := &Ctx{fn: h, bind: map[*ssa.Parameter]*AV{}}
+		av := e.eval(r.Results[idx], ctx, r.Instr.Block(), 0)
+		av = e.refineAt(av, r.Results[idx], r.Instr.Block(), ctx)
+		if av == nil || av.Top || av.kind != "types" {
+			return ""
+		}
+		for _, t := range av.Types {
+			got[typeStr(t)] = true
+		}
+	}
+	var reach []string
+	for _, t := range []string{"int64", "float64", "encoding/json.Number"} {
+		if got[t] {
+			if !seen[t] {
+				return ""
+			}
+			reach = append(reach, t)
+		}
+	}
+	if len(reach) == 0 {
+		return ""
+	}
+	return "the operand comes from " + fnName(h) + ", which answers only " + strings.Join(reach, ", ") + " among the numeric representations: all of those are handled"
+}
+
+// excludedBeforeSwitch: by the tests on the ways to the type switch ts (E2's
+// forward refinement), the operand cannot hold any numeric representation the
+// switch lacks. Returns the reason, or "".
+func (p *Prog) excludedBeforeSwitch(sf *ssa.Function, ts *ast.TypeSwitchStmt, seen map[string]bool) string {
+	if sf == nil || sf.Blocks == nil {
+		return ""
+	}
+	e, err := p.exhEngine()
+	if err != nil {
+		return ""
+	}
+	var first *ssa.TypeAssert
+	for _, b := range sf.Blocks {
+		for _, ins := range b.Instrs {
+			ta, ok := ins.(*ssa.TypeAssert)
+			if !ok || !ta.CommaOk || ta.Pos() < ts.Pos() || ta.Pos() > ts.End() {
+				continue
+			}
+			if it, ok := ta.X.Type().Underlying().(*types.Interface); !ok || it.NumMethods() != 0 {
+				continue
+			}
+			if first == nil {
+				first = ta
+			}
+		}
+	}
+	if first == nil {
+		return ""
+	}
+	ctx := &Ctx{fn: sf, bind: map[*ssa.Parameter]*AV{}}
+	av := e.top(first.X.Type())
+	av = e.refineAt(av, first.X, first.Block(), ctx)
+	if av == nil || av.Top || av.kind != "types" || len(av.Types) == 0 {
+		return ""
+	}
+	var miss []string
+	for _, t := range []string{"int64", "float64", "encoding/json.Number"} {
+		if seen[t] {
+			continue
+		}
+		for _, at := range av.Types {
+			if typeStr(at) == t {
+				return ""
+			}
+		}
+		miss = append(miss, t)
+	}
+	if len(miss) == 0 {
+		return ""
+	}
+	return strings.Join(miss, ", ") + " cannot reach the switch: dealt with by an assertion before it whose branch leaves the function"
+}
